@@ -396,10 +396,10 @@ def check_permutation_greedy(chk, fi: FuncInfo) -> None:
                 chk.error("greedy-mark", fi.site(marks[0]), f"condition `{[norm(x.test) for x in gs]}` of the unavailability mark not recognised")
         else:
             chk.violation("greedy-mark-form", fi.site(inn), "the scan does not mark exactly the levels of earlier stems that are adjacent (crossing) to the stem being placed", K(fi, "greedy-mark-form"), found=[norm(s) for s in inn.body])
-        if c01.least_available_ok(choice, "available") and g.body.index(store) > g.body.index(inn):
-            chk.ok("greedy-choice", fi.site(store), "the stem gets the least level still available")
+        if g.body.index(store) < g.body.index(inn):
+            chk.violation("greedy-choice", fi.site(store), "the level is chosen before the scan over the earlier positions", K(fi, "greedy-choice-order"))
         else:
-            chk.violation("greedy-choice", fi.site(store), f"`{norm(choice)[:100]}` does not give the stem the least available level after the scan", K(fi, "greedy-choice"), found=norm(choice))
+            c01.judge_choice(chk, fi, "greedy-choice", store, choice, "available", 6, "greedy-choice", {comp: list(range(6)), perm: tuple(range(6))})
     else:
         # ---- family 2: set of taken levels + mex -----------------------------------------------------------------
         tk = [s for s in g.body if isinstance(s, ast.Assign) and isinstance(s.targets[0], ast.Name) and isinstance(s.value, (ast.SetComp, ast.ListComp)) and "orders" in astq.names(s.value)]
